@@ -132,12 +132,22 @@ package internal
 //@ func (*FileWatcher).WatchFile
 //@   abstractbody
 //@   #allocates
+//@   modifies ghost Watchers
+//@   ensures  others: forall k string :: k != ReaderKey(reader) ==> Watchers[k] == old(Watchers)[k]
+
+// what identifies a reader to the file watcher
+//@ func (caFileReader).ID
+//@   ensures  key: result == ReaderKey(box(r, caFileReader))
+//@ func (*FileReader).ID
+//@   requires f != nil
+//@   ensures  key: result == ReaderKey(box(f, *FileReader))
 
 //@ func (*tlsConfigPool).LoadTLSConfig
 //@   requires wf: p != nil && p.log != nil && p.configs != nil && p.caWatcher != nil && config != nil && !held(addr(p.mu))
 //@   requires pool: TlsPoolInv(p)
 //@   uses L-hashbuf-injective
-//@   modifies mapof(p.configs), ghost PoolAdded, ghost HashIn, ghost $held[addr(p.mu)], above(watermark())
+//@   modifies mapof(p.configs), ghost PoolAdded, ghost HashIn, ghost $held[addr(p.mu)], ghost Watchers, above(watermark())
+//@   ensures  own_watcher: forall k string :: k != PoolID(EncOf(config)) ==> Watchers[k] == old(Watchers)[k]
 //@   ensures  none: TlsCA(config) == "" && TlsCAFile(config) == "" && TlsSkip(config) == nil ==> result0 == nil && result1 == nil
 //@   ensures  err_nil: result1 != nil ==> result0 == nil
 //@   ensures  trust: result1 == nil && result0 != nil ==> TrustFor(result0, EncOf(config))
